@@ -1,6 +1,6 @@
 CONSTANTS NCells = 12
  Unit = 4
- MaxCtx = 2
+ MaxCtx = 3
 INIT GInit
 NEXT GNext
 INVARIANT Emit
